@@ -110,7 +110,18 @@ def for_invariant(I, st, s, itv, fr):
     return I.branch(head, i < n, body, exit_)
 
 
+class GenOver(Value):
+    """A generator expression over a collection of unknown size (only consumable by set()/frozenset())."""
+    __slots__ = ("src", "node")
+
+    def __init__(self, src, node):
+        self.src, self.node = src, node
+
+
 def symbolic_comprehension(I, st, e, itv, fr, k, kind):
+    if kind == "gen" and isinstance(itv, Sym):
+        B.note(I, "generator expression over a collection of unknown size: its element expression is assumed not to raise")
+        return k(st, GenOver(itv, e))
     raise Unsupported("comprehension over a sequence of symbolic length")
 
 
